@@ -164,6 +164,10 @@ func runC01(c *engine.Ctx) {
 			cases = append(cases, c01Case{kind: k, group: "header-value-not-utf8", path: "put", key: "h/k", keyName: hv[0] + "=" + hv[1], size: 5, pattern: "mod251", integrity: "on", start: "absent",
 				meta: map[string]string{hv[0]: hv[1]}})
 		}
+		// G5c: a header sent on several lines is one header with a list value
+		cases = append(cases, c01Case{kind: k, group: "header-repeated", path: "put-repeated", key: "h/k", keyName: "x-amz-meta-tags x2", size: 5, pattern: "mod251", integrity: "on", start: "absent"})
+		// G5d: a browser-form upload without a key has nothing a GET could name
+		cases = append(cases, c01Case{kind: k, group: "form-empty-key", path: "form", key: "", keyName: "(empty)", size: 5, pattern: "mod251", integrity: "on", start: "absent"})
 		// G6: a copy that replaces metadata leaves the source's metadata alone
 		cases = append(cases, c01Case{kind: k, group: "copy-replace-meta", path: "copy-meta", key: "dst/k", keyName: "dst/k", size: 7, pattern: "mod251", integrity: "on", start: "absent"})
 		// G3
@@ -223,7 +227,14 @@ func runC01(c *engine.Ctx) {
 		if cs.group == "header-value-not-utf8" {
 			cond = "header-value-not-utf8"
 		}
-		c.Report(&engine.Violation{Sig: sig("C01", backendClass(cs.kind), cs.path, f, cond), World: string(cs.kind), History: []string{cs.String()}, Msg: cs.String() + ": " + msg})
+		if cs.group == "header-repeated" || cs.group == "form-empty-key" {
+			cond = cs.group
+		}
+		path := cs.path
+		if f == "head-entity-header-differs" || f == "conditional-get-stale" {
+			path, cond = "any", "-" // independent of how and under which key the object was uploaded
+		}
+		c.Report(&engine.Violation{Sig: sig("C01", backendClass(cs.kind), path, f, cond), World: string(cs.kind), History: []string{cs.String()}, Msg: cs.String() + ": " + msg})
 	})
 	c.Add(int64(len(cases)), 0, 0, 0)
 	c.AddSample(map[string]interface{}{"case": cases[len(cases)/3].String()})
@@ -248,6 +259,10 @@ func c01Run(c *engine.Ctx, cs c01Case) (field, msg string) {
 		if r.Status != 200 {
 			return "setup", "pre-existing object: " + r.Short()
 		}
+	}
+	var oldView drv.ObjView
+	if cs.start == "existing" {
+		oldView = w.Get("aaa", cs.key)
 	}
 	var hdr [][2]string
 	var mk []string
@@ -275,10 +290,36 @@ func c01Run(c *engine.Ctx, cs c01Case) (field, msg string) {
 			return "upload-status", "PUT answered " + r.Short()
 		}
 		upETag = r.Header.Get("ETag")
+	case "put-repeated":
+		r := w.Do(drv.Req{Method: "PUT", Path: "/aaa/" + cs.key, Body: body, Header: drv.H("x-amz-meta-tags", "one", "x-amz-meta-tags", "two")})
+		evals++
+		if r.Status != 200 || r.Panic != "" {
+			return "upload-status", "PUT answered " + r.Short()
+		}
+		upETag = r.Header.Get("ETag")
+		for _, head := range []bool{false, true} {
+			v := w.Get("aaa", cs.key)
+			if head {
+				v = w.Head("aaa", cs.key)
+			}
+			evals++
+			var vals []string
+			for _, line := range v.Hdr["X-Amz-Meta-Tags"] {
+				for _, e := range strings.Split(line, ",") {
+					vals = append(vals, strings.TrimSpace(e))
+				}
+			}
+			if strings.Join(vals, ",") != "one,two" {
+				return "meta-repeated-header", fmt.Sprintf("x-amz-meta-tags sent as two lines (one, two) comes back as %q (head=%v)", v.Hdr["X-Amz-Meta-Tags"], head)
+			}
+		}
 	case "form":
 		fb, ct := formBody(cs.key, body, nil)
 		r := w.Do(drv.Req{Method: "POST", Path: "/aaa", Body: fb, Header: drv.H("Content-Type", ct)})
 		evals++
+		if cs.key == "" && r.Panic == "" && r.Status >= 400 && r.Status < 500 {
+			return "", "" // refused: nothing was acknowledged
+		}
 		if r.Status != 200 || r.Panic != "" {
 			return "upload-status", "form POST answered " + r.Short()
 		}
@@ -408,6 +449,23 @@ func c01Run(c *engine.Ctx, cs c01Case) (field, msg string) {
 	evals++
 	if f, m := checkObjView(hv, want, true); f != "" {
 		return "head-" + f, m
+	}
+	// HEAD reports the same entity headers as GET
+	gv := w.Get("aaa", cs.key)
+	evals++
+	for _, h := range []string{"Content-Type", "Content-Encoding", "Content-Disposition", "Last-Modified", "Cache-Control", "Expires"} {
+		if fmt.Sprint(gv.Hdr[h]) != fmt.Sprint(hv.Hdr[h]) {
+			return "head-entity-header-differs", fmt.Sprintf("%s is %q on GET and %q on HEAD", h, gv.Hdr[h], hv.Hdr[h])
+		}
+	}
+	if cs.start == "existing" && oldView.Status == 200 && oldView.ETag != drv.ETagOf(body) {
+		// a client revalidating the replaced object: its validator no longer matches, so
+		// it must get the new bytes whatever the (one-second) timestamps say
+		r := w.Do(drv.Req{Method: "GET", Path: "/aaa/" + cs.key, Header: drv.H("If-None-Match", oldView.ETag, "If-Modified-Since", firstOr(oldView.Hdr["Last-Modified"], ""))})
+		evals++
+		if cv := drv.ViewOf(r); cv.Status != 200 || !bytes.Equal(cv.Body, body) {
+			return "conditional-get-stale", fmt.Sprintf("GET If-None-Match:<ETag of the replaced object> If-Modified-Since:<its Last-Modified> answers %d with %d body bytes, want 200 with the new object", cv.Status, len(cv.Body))
+		}
 	}
 	lp := w.List("aaa", "")
 	evals++
